@@ -283,20 +283,25 @@ func runC18(h *Harness) {
 		h.R.Config = "faulty"
 	}
 	var opsLog []string
+	var ms, ds crlstore.CRLStore
+	var model *storeModel
+	var keys [][2]any
+	uncertain := false // an operation returned an error under an injected fault: its effect may or may not be there
+	finished := false
 	h.Call(n, "ops", func() {
 		logger := zap.NewNop()
 		mf, _ := crlstore.CreateStoreFactory(crlstore.Map, n.WorkDir, logger)
 		df, _ := crlstore.CreateStoreFactory(crlstore.LevelDB, n.WorkDir, logger)
-		ms, err1 := mf.CreateStore("store1", false)
-		ds, err2 := df.CreateStore("store1", false)
+		var err1, err2 error
+		ms, err1 = mf.CreateStore("store1", false)
+		ds, err2 = df.CreateStore("store1", false)
 		if err1 != nil || err2 != nil {
 			h.Violation("C18.setup", "create-failed", "%v %v", err1, err2)
 			return
 		}
-		model := newStoreModel()
+		model = newStoreModel()
 		curBase := n.WorkDir
 		// fixed lookup set: every (issuer, serial) the generator can produce is too many; use those touched so far + neighbours
-		var keys [][2]any
 		addKey := func(i *pkix.RDNSequence, s *big.Int) {
 			for _, k := range keys {
 				if k[0].(*pkix.RDNSequence) == i && k[1].(*big.Int).Cmp(s) == 0 {
@@ -307,7 +312,6 @@ func runC18(h *Harness) {
 				keys = append(keys, [2]any{i, s})
 			}
 		}
-		uncertain := false // an operation returned an error under an injected fault: its effect may or may not be there
 		apply := func(name string, f func(s crlstore.CRLStore) error, mod func(m *storeModel)) {
 			e1 := f(ms)
 			e2 := f(ds)
@@ -504,8 +508,64 @@ func runC18(h *Harness) {
 				}
 			}
 		}
-		ds.Close()
+		finished = true
 	})
+	// the same stores, several readers at once: every lookup answers for ITS (issuer, serial), whoever else is reading
+	if finished && !uncertain && len(h.R.Violations) == softViolations && len(keys) > 0 {
+		h.S.pPre = uint64(Pick(tp, 100, 300, 600)) * (1 << 32) / 1000
+		readers := 2 + tp.Int(3)
+		type ans struct {
+			disk, mem string
+		}
+		results := make([][]ans, readers)
+		var ts []*Task
+		for r := 0; r < readers; r++ {
+			r := r
+			results[r] = make([]ans, len(keys))
+			ts = append(ts, h.S.Go(n.Name, fmt.Sprintf("%s/reader%d", n.Name, r), func() {
+				for q := 0; q < len(keys); q++ {
+					j := (q*(r+1) + r) % len(keys)
+					iss, ser := keys[j][0].(*pkix.RDNSequence), keys[j][1].(*big.Int)
+					one := func(st crlstore.CRLStore) string {
+						x, err := st.GetCertRevocationStatus(iss, ser)
+						switch {
+						case err != nil:
+							return "err:" + err.Error()
+						case x != nil && x.Revoked:
+							return "R"
+						}
+						return "-"
+					}
+					results[r][j] = ans{disk: one(ds), mem: one(ms)}
+				}
+			}))
+		}
+		h.Wait(ts...)
+		h.R.NonTrivial = true
+		for r := 0; r < readers && len(h.R.Violations) == softViolations; r++ {
+			for j, k := range keys {
+				if results[r][j].disk == "" {
+					continue
+				}
+				h.R.Checks++
+				want := "-"
+				if _, ok := model.entries[mkey(k[0].(*pkix.RDNSequence), k[1].(*big.Int))]; ok {
+					want = "R"
+				}
+				if results[r][j].disk != want {
+					h.Violation("C18.disk-vs-model", "concurrent-lookup", "with %d readers at once the disk backend answered %q for (%s, %s), the model says %q (after %v)", readers, results[r][j].disk, k[0].(*pkix.RDNSequence).String(), k[1].(*big.Int), want, opsLog)
+					break
+				}
+				if results[r][j].mem != want {
+					h.Violation("C18.map-vs-model", "concurrent-lookup", "with %d readers at once the memory backend answered %q for (%s, %s), the model says %q (after %v)", readers, results[r][j].mem, k[0].(*pkix.RDNSequence).String(), k[1].(*big.Int), want, opsLog)
+					break
+				}
+			}
+		}
+	}
+	if ds != nil {
+		h.Call(n, "close", func() { ds.Close() })
+	}
 	if len(opsLog) > 12 {
 		opsLog = append(opsLog[:12], "...")
 	}
